@@ -472,6 +472,7 @@ pub fn run(args: &Args) -> i32 {
     let mut out = Out::create(&args.str("out", "/verif/work/C06/trace-actor.ndjson"));
     let permille = args.u64("sample-permille", 1000);
     let long_permille = args.u64("long-permille", 1000);
+    let silent_permille = args.u64("silent-permille", 1000);
     let only = args.get("only").and_then(|x| x.parse::<u64>().ok());
     let mut rng = crate::rng::Rng::new(seed ^ 0xAC7);
     let mut plans: Vec<Value> = vec![];
@@ -493,7 +494,8 @@ pub fn run(args: &Args) -> i32 {
     let mut runs = 0u64;
     let mut lines = 0u64;
     for plan in &plans {
-        let pm = if plan["long"].as_u64().unwrap_or(0) > 0 { long_permille } else { permille };
+        let has_silent = plan["silent"].as_array().map(|a| !a.is_empty()).unwrap_or(false);
+        let pm = if plan["long"].as_u64().unwrap_or(0) > 0 { long_permille } else if has_silent { silent_permille } else { permille };
         let take = only.map(|o| o == b).unwrap_or_else(|| pm >= 1000 || rng.below(1000) < pm);
         if take {
             let (n, _) = run_plan(b, plan, seed, &mut out);
